@@ -448,6 +448,8 @@ func c19(mode, in, out string) error {
 		return runCases(in, out, c19RecordCase)
 	case "history":
 		return runCases(in, out, c19HistoryCase)
+	case "epub":
+		return runCases(in, out, c19EpubCase)
 	case "histrecord":
 		return runCases(in, out, c19HistRecordCase)
 	}
